@@ -140,7 +140,8 @@ C_NOTE = ("Trusted: Coq kernel + VM; the hand-written LTS Model/Coord.v is tied 
           "departed agent's address is checked by the address-reuse twin (each session replayed with later connections coming from "
           "departed agents' addresses must answer identically); the protocol and the model know no time-outs - a monitor counts the "
           "timers armed beyond the idle coordinator's heart-beats and, if there are any, advances a virtual clock and examines what "
-          "the agents receive.")
+          "the agents receive; per-run obligation C01_no_timeouts: the only time-dependent calls in coordinator.py are its two idle "
+          "heart-beat sleeps.")
 C_TECH = "machine-checked proof in Rocq (Coq 8.16) over a labelled-transition-system model of the coordinator (inductive invariant for all label sequences) + trace-following model/code correspondence + source-shape translator + direct monitor"
 
 claim("C01",
